@@ -139,7 +139,7 @@ def _score_obs(getter, unit):
         return [0, 0, "absent"]
     if fv != fv:
         return [0, 0, "absent"]
-    if fv < 0:
+    if fv < -1e-6:          # the property's 1e-6 tolerance also applies around zero (float dust like -4e-16)
         return [0, 0, "negative"]
     u, exact = core.to_units(fv, unit)
     return [u, 1 if exact else 0, "ok"]
